@@ -792,7 +792,7 @@ def bbox_extremes(P, rep, rule="DEP.bbox-extremes"):
                     lam = next((z for z in F.walk(inits[y["r"]]) if z.get("k") == "LambdaExpr"), None)
                 if lam is None:
                     continue
-                for key in lam.get("lams") or []:
+                for key in (lam.get("lams") or []) + ([lam["lam"]] if lam.get("lam") else []):
                     G = P.funcs.get(key)
                     if G is None or G.body is None:
                         continue
